@@ -81,6 +81,8 @@ func (r *hyRun) add(id int, pos int, text string, meta map[string]any, fault str
 		vec = []float32{1, 2} // wrong dimension
 	case "meta":
 		realMeta["bad"] = []int{1} // unsupported value type
+	case "metanil":
+		realMeta["bad"] = nil // a null value is not a storable value either
 	}
 	var md map[string]any
 	if len(realMeta) > 0 {
@@ -436,7 +438,7 @@ func drvHybrid(args []string) error {
 				}
 				fault := "none"
 				if r.rng.Intn(6) == 0 {
-					fault = []string{"vec", "meta"}[r.rng.Intn(2)]
+					fault = []string{"vec", "meta", "metanil"}[r.rng.Intn(3)]
 					if fault == "vec" && pos == -1 {
 						pos = 2
 					}
